@@ -1,4 +1,7 @@
 import EpModel.Lemmas.DecLax
+import EpModel.Lemmas.DecRefineLax
+import EpModel.Lemmas.DecRefineLaxIp
+import EpModel.Lemmas.DecRefineLaxEntry
 /-
   C05 — lax parsing extends strict parsing and flags truncation honestly.
 
@@ -12,9 +15,17 @@ import EpModel.Lemmas.DecLax
   * `incomplete_iff_*`: a payload is marked incomplete exactly when its length field promised more
     than the slice holds; then the data up to the end of the slice is handed out and the slice is
     the reported length source.
-  The comparison of the lax layer prefix with the wire formats (Spec.decodeLax) and the location of
-  stop errors is exercised by the oracle of the check; `Tolerated` (what lax mode absorbs) is the
-  explicit list in the python module.
+  * `lax_*_matches_wire_formats` (second half of the file): the LAX REFINEMENT.  For every byte string
+    the lax cursor model returns exactly what the lax wire-format walk `Spec.decodeLax` returns: the
+    same layers in front of the first fault (windows, fragmentation flags, length sources, incomplete
+    marks), a stop error exactly when the walk reports a fault, recorded at the layer of the faulting
+    unit and describing the fault (`ErrMatch`, the notion of the strict refinement C03/C07).  One known
+    wrinkle (`ShortV4Stop`, the lax twin of C03's `ShortV4`): every lax door decodes IP through the
+    version-dispatching `LaxIpSlice::from_slice`, which reads the IHL before the length check, so for
+    an IPv4 version nibble in 1..19 bytes it names the bad IHL / requires `ihl*4` bytes where the wire
+    format reading says "20 bytes needed"; offset, available bytes and layer still agree.
+  `Tolerated` (what lax mode absorbs) is the explicit list in the python module; the oracle of the
+  check runs `spec.dec.decode_lax` against the real crate in addition to this proof.
 -/
 namespace EpModel.Props.C05
 open EpModel EpModel.Dec EpModel.Lemmas.Dec
@@ -115,5 +126,132 @@ theorem udp_lax_rule (g : Mem) (o l : Nat) (h8 : 8 ≤ l) :
   have : ¬ l < 8 := by omega
   simp only [this, if_false]
   split <;> rfl
+
+/-! ### the lax refinement: lax slicing = the lax wire-format walk, for every byte string -/
+
+open EpModel.Spec EpModel.Lemmas.Refine EpModel.Lemmas.RefineLax
+
+/-- `LaxSlicedPacket::from_ether_type` = wire formats, for every ether type and byte string:
+    the same layers in front of the first fault, a stop error iff the walk reports a fault, and the
+    stop error describes the fault (`RelLaxW` = `RelLax` + the short-IPv4 wrinkle `ShortV4Stop`). -/
+theorem lax_from_ether_type_matches_wire_formats (et : Nat) (b : Bytes) :
+    RelLaxW (memOf b) (laxSlicedFromEtherType (memOf b) et b.length)
+      (Spec.decodeLax (.etherType et) (memOf b) b.length) :=
+  lax_from_ether_type_refinesW (memOf b) (byteMem_memOf b) et b.length
+
+/-- … and without any exception (`RelLax`: the stop error matches the fault in the sense of the strict
+    refinement) whenever the walk does not end at an IPv4 header of fewer than 20 bytes. -/
+theorem lax_from_ether_type_matches_wire_formats_exactly (et : Nat) (b : Bytes)
+    (h : ¬ ShortV4Fault (Spec.decodeLax (.etherType et) (memOf b) b.length)) :
+    RelLax (laxSlicedFromEtherType (memOf b) et b.length)
+      (Spec.decodeLax (.etherType et) (memOf b) b.length) :=
+  relLax_of_W (lax_from_ether_type_matches_wire_formats et b) h
+
+/-- `LaxSlicedPacket::from_ethernet` = wire formats: `Err` exactly when the walk faults at the
+    Ethernet II header (with a matching length error), otherwise as for `from_ether_type`. -/
+theorem lax_from_ethernet_matches_wire_formats (b : Bytes) :
+    match laxSlicedFromEthernet (memOf b) b.length with
+    | .error e =>
+      ∃ f, Spec.decodeLax .eth (memOf b) b.length = (Packet.empty, some f) ∧ f.unit = .eth ∧ LenMatch e f
+    | .ok m =>
+      RelLaxW (memOf b) m (Spec.decodeLax .eth (memOf b) b.length) ∧
+        ∀ f, (Spec.decodeLax .eth (memOf b) b.length).2 = some f → f.unit ≠ .eth :=
+  lax_from_ethernet_refinesW (memOf b) (byteMem_memOf b) b.length
+
+theorem lax_from_ethernet_matches_wire_formats_exactly (b : Bytes) (m : Packet)
+    (hm : laxSlicedFromEthernet (memOf b) b.length = .ok m)
+    (h : ¬ ShortV4Fault (Spec.decodeLax .eth (memOf b) b.length)) :
+    RelLax m (Spec.decodeLax .eth (memOf b) b.length) := by
+  have key := lax_from_ethernet_matches_wire_formats b
+  rw [hm] at key
+  exact relLax_of_W key.1 h
+
+/-- `LaxSlicedPacket::from_ip` = wire formats: `Err` exactly when the walk faults at the first (IP)
+    header, before any layer; otherwise `RelLax`.  On the input class of the wrinkle (IPv4 version
+    nibble, 1..19 bytes) both reject, the model with the error `ShortV4` describes (as in C03). -/
+theorem lax_from_ip_matches_wire_formats (b : Bytes) :
+    if memOf b 0 / 16 = 4 ∧ 0 < b.length ∧ b.length < 20 then
+      (∃ e, laxSlicedFromIp (memOf b) b.length = .error e ∧ ShortV4 (memOf b) 0 b.length Cur.new e) ∧
+        Spec.decodeLax .ip (memOf b) b.length =
+          (Packet.empty, some (mkFault (ctx0 b.length) .cutShort .ipv4Header 20))
+    else
+      match laxSlicedFromIp (memOf b) b.length with
+      | .error e =>
+        ∃ f, Spec.decodeLax .ip (memOf b) b.length = (Packet.empty, some f) ∧
+          (f.unit = .ipAny ∨ f.unit = .ipv4Header ∨ f.unit = .ipv6Header) ∧ ErrMatch e f
+      | .ok m => RelLax m (Spec.decodeLax .ip (memOf b) b.length) ∧ m.net.isSome :=
+  lax_from_ip_refines (memOf b) (byteMem_memOf b) b.length
+
+/-- … and an `Ok` of lax `from_ip` means the walk has no fault at the first (IP) header -/
+theorem lax_from_ip_ok_not_first_header (b : Bytes) (m : Packet)
+    (h : laxSlicedFromIp (memOf b) b.length = .ok m) (f : Fault)
+    (hf : (Spec.decodeLax .ip (memOf b) b.length).2 = some f) :
+    ¬ (f.unit = .ipAny ∨ f.unit = .ipv4Header ∨ f.unit = .ipv6Header) :=
+  lax_from_ip_ok_fault_unit (memOf b) (byteMem_memOf b) b.length m h f hf
+
+/-- Corollary (all lax doors that return a packet): the layers in front of the fault are the wire
+    format's, a lax result has a stop error exactly when the wire-format walk reports a fault, and the
+    stop error is located where the fault is — the recorded layer names the faulting unit, a length
+    error carries the fault's absolute offset and the bytes really available there.  This holds
+    without exception (also on the wrinkle's input class). -/
+theorem lax_stop_iff_fault_and_located (g : Mem) (m : Packet) (s : Packet × Option Fault)
+    (h : RelLaxW g m s) :
+    noStop m = s.1 ∧ (m.stop = none ↔ s.2 = none) ∧
+      ∀ e ly f, m.stop = some (e, ly) → s.2 = some f →
+        StopLayer ly f.unit ∧ ∀ le, e = .len le → le.off = f.off ∧ le.len = f.avail :=
+  ⟨((relLaxW_iff g m s).mp h).1, ((relLaxW_iff g m s).mp h).2.1,
+    fun e ly f hm hf => relLaxW_located h e ly f hm hf⟩
+
+theorem lax_ether_type_stop_iff_fault (et : Nat) (b : Bytes) :
+    ((laxSlicedFromEtherType (memOf b) et b.length).stop = none ↔
+      (Spec.decodeLax (.etherType et) (memOf b) b.length).2 = none) ∧
+    ∀ e ly f, (laxSlicedFromEtherType (memOf b) et b.length).stop = some (e, ly) →
+      (Spec.decodeLax (.etherType et) (memOf b) b.length).2 = some f →
+      StopLayer ly f.unit ∧ ∀ le, e = .len le → le.off = f.off ∧ le.len = f.avail :=
+  (lax_stop_iff_fault_and_located _ _ _ (lax_from_ether_type_matches_wire_formats et b)).2
+
+theorem lax_ethernet_stop_iff_fault (b : Bytes) (m : Packet)
+    (hm : laxSlicedFromEthernet (memOf b) b.length = .ok m) :
+    (m.stop = none ↔ (Spec.decodeLax .eth (memOf b) b.length).2 = none) ∧
+    ∀ e ly f, m.stop = some (e, ly) → (Spec.decodeLax .eth (memOf b) b.length).2 = some f →
+      StopLayer ly f.unit ∧ ∀ le, e = .len le → le.off = f.off ∧ le.len = f.avail := by
+  have key := lax_from_ethernet_matches_wire_formats b
+  rw [hm] at key
+  exact (lax_stop_iff_fault_and_located _ _ _ key.1).2
+
+theorem lax_ip_stop_iff_fault (b : Bytes) (m : Packet)
+    (hm : laxSlicedFromIp (memOf b) b.length = .ok m) :
+    (m.stop = none ↔ (Spec.decodeLax .ip (memOf b) b.length).2 = none) ∧
+    ∀ e ly f, m.stop = some (e, ly) → (Spec.decodeLax .ip (memOf b) b.length).2 = some f →
+      StopLayer ly f.unit ∧ ErrMatch e f := by
+  have key := lax_from_ip_matches_wire_formats b
+  split at key
+  · obtain ⟨⟨e, he, _⟩, _⟩ := key
+    rw [he] at hm; cases hm
+  · rw [hm] at key
+    exact ((relLax_iff _ _).mp key.1).2
+
+/-! ### the wrinkle is real -/
+
+/-- the statement without the wrinkle, kept for reference -/
+def LaxEtherTypeExceptionFree : Prop :=
+  ∀ (et : Nat) (b : Bytes),
+    RelLax (laxSlicedFromEtherType (memOf b) et b.length) (Spec.decodeLax (.etherType et) (memOf b) b.length)
+
+/-- … it is false: on the 4 bytes `4f 00 00 00` behind ether type 0x0800 the lax cursor requires
+    60 bytes (IHL 15, read before the length check) where the wire-format walk says "20 needed".
+    `lax_from_ether_type_matches_wire_formats` (with `ShortV4Stop`) is therefore the full statement;
+    `…_exactly` says that this input class is the only exception. -/
+theorem lax_exception_free_statement_fails : ¬ LaxEtherTypeExceptionFree := by
+  intro hall
+  have h := hall 0x0800 [0x4f, 0, 0, 0]
+  have hm : (laxSlicedFromEtherType (memOf [0x4f, 0, 0, 0]) 0x0800 4).stop =
+      some (.len { req := 60, len := 4, src := .slice, layer := .ipv4Header, off := 0 }, .ipHeader) := by
+    decide
+  have hf : (Spec.decodeLax (.etherType 0x0800) (memOf [0x4f, 0, 0, 0]) 4).2 =
+      some { cls := .cutShort, unit := .ipv4Header, off := 0, avail := 4, need := 20, lim := .slice, value := 0 } := by
+    decide
+  have := (((relLax_iff _ _).mp h).2.2 _ _ _ hm hf).2
+  exact absurd this.req (by decide)
 
 end EpModel.Props.C05
